@@ -130,6 +130,18 @@ impl Keys {
 
 const PARTY_STACK: usize = 256 << 20;
 
+/// How far a party's clock advances per reading: most machines are fast (1 us), some are slow or
+/// stalled (1 ms, 1 s) and some see their clock jump (1 min). Derived from the keys, so it is part
+/// of every replay file.
+pub fn party_clock_step_ns(keys: &Keys) -> u64 {
+    match (keys.k0 >> 7) % 8 {
+        0..=3 => 1_000,
+        4 => 1_000_000,
+        5 | 6 => 1_000_000_000,
+        _ => 60_000_000_000,
+    }
+}
+
 /// The simulated wall-clock time of a party (ns since the epoch): somewhere in 2020..2030.
 pub fn party_time_ns(keys: &Keys) -> u64 {
     (1_600_000_000 + (keys.k0 ^ keys.k1.rotate_left(17)) % 300_000_000) * 1_000_000_000 + (keys.k1 % 1_000_000_000)
@@ -153,7 +165,7 @@ pub fn run_party<T: Send + 'static>(keys: Keys, f: impl FnOnce() -> T + Send + '
                 std::hint::black_box(&m);
             }
             // party time: derived from the keys, so no two parties agree on what time it is
-            seams::enter_party_clock(party_time_ns(&keys));
+            seams::enter_party_clock(party_time_ns(&keys), party_clock_step_ns(&keys));
             let r = guarded(f);
             seams::leave_party_clock();
             r
